@@ -109,6 +109,35 @@ def nested_templates(tier):
     return out
 
 
+TREE_MENU = [
+    dict(), dict(define="v1 string:outer"), dict(define="global g1 it | j | s1"), dict(condition="t"), dict(condition="exists:it"), dict(repeat="it seq2"), dict(repeat="j seq3"),
+    dict(repeat="it seq2", attributes="id attrs/title; lang j | it | default"), dict(omit=""), dict(omit="exists:j"), dict(attributes="title v1 | it | j | default"),
+    dict(content=("c", "v1 | it | j | g1 | string:none")), dict(content=("c", "default")), dict(content=("r", "default")), dict(define="v1 it | string:noit", condition="not:exists:j"),
+    dict(repeat="it recs", condition="it/flag"),
+]
+
+
+def tree_templates(tier):
+    """'Arbitrary nesting' within a bound: every assignment of the menu to a chain of three
+    elements and to a parent with two children (thorough: chains of four over the first 9)."""
+    out = []
+    tail = element(tag="b", body="after", static="", content=("c", "string:${v1 | string:-}/${it | string:-}/${j | string:-}/${g1 | string:-}"))
+
+    def el(spec, body, tag, static):
+        return element(tag=tag, body=body, static=static, **spec)
+
+    menu = TREE_MENU if tier == "thorough" else TREE_MENU[:12]
+    for a, b, c in itertools.product(menu, repeat=3):
+        leaf = el(c, "leaf", "em", 'title="t3"')
+        out.append("<html><body>" + el(a, "(" + el(b, "[" + leaf + "]", "span", 'title="t2" class="c2"') + ")", "div", 'title="t1" class="c1"') + tail + "</body></html>")
+        out.append("<html><body>" + el(a, "(" + el(b, "first", "span", 'title="t2" class="c2"') + "|" + leaf + ")", "div", 'title="t1" class="c1"') + tail + "</body></html>")
+    if tier == "thorough":
+        for a, b, c, d in itertools.product(TREE_MENU[:9], repeat=4):
+            leaf = el(d, "leaf", "u", 'title="t4"')
+            out.append("<html><body>" + el(a, "(" + el(b, "[" + el(c, "{" + leaf + "}", "em", 'title="t3"') + "]", "span", 'title="t2"') + ")", "div", 'title="t1"') + tail + "</body></html>")
+    return out
+
+
 def metal_templates():
     out = []
     macro_plain = '<div metal:define-macro="box" class="box">[<span metal:define-slot="body">default body</span>|<i metal:define-slot="foot">default foot</i>]</div>'
@@ -367,7 +396,8 @@ def run(ck):
     singles = single_templates(ck.tier)
     nested = nested_templates(ck.tier)
     metal = metal_templates()
-    items = list(dict.fromkeys(singles + nested + metal))
+    trees = tree_templates(ck.tier)
+    items = list(dict.fromkeys(singles + nested + metal + trees))
     if ck.seed:
         import random
 
@@ -379,8 +409,8 @@ def run(ck):
     if p.extra.get("capped"):
         ck.caps.append("environment exploration capped at 20000 executions for %r" % p.extra["capped"])
     ck.rule = ("templates = one element carrying every consistent subset of the six TAL commands with every expression of per-command menus (define %d, condition %d, repeat %d, content/replace %d, attributes %d, omit-tag %d; quick: full cross on interacting axes only), "
-               "%d parent x child pairs, %d METAL templates; each compared with the reference evaluator on the parsed event stream and checked for program structure; %d templates run with Context.evaluate answered from %d values at every site with <= %d deviations; "
-               "distinct = (verdicts, number of TAL commands) / (class, deviations)" % (len(DEFINE), len(CONDITION), len(REPEAT), len(CONTENT), len(ATTRIBUTES), len(OMIT), len(nested), len(metal), len(ENV_TEMPLATES), len(ANSWERS), bound))
+               "%d parent x child pairs, %d three-element trees (chain and parent with two children; thorough also four-element chains) over a %d-entry element menu, %d METAL templates; each compared with the reference evaluator on the parsed event stream and checked for program structure; %d templates run with Context.evaluate answered from %d values at every site with <= %d deviations; "
+               "distinct = (verdicts, number of TAL commands) / (class, deviations)" % (len(DEFINE), len(CONDITION), len(REPEAT), len(CONTENT), len(ATTRIBUTES), len(OMIT), len(nested), len(trees), len(TREE_MENU), len(metal), len(ENV_TEMPLATES), len(ANSWERS), bound))
     ck.bounds = {"templates": len(items), "env_deviations": bound}
     ck.assumptions = ["pygopherd only uses the HTML compiler; XML templates and python: semantics beyond the gate are not modelled",
                       "outputs are compared as parsed event streams (attributes as a mapping, adjacent text merged)"]
